@@ -1057,7 +1057,7 @@ class Interp:
                 from .contracts import INTERFACES
                 vc = self.contracts.get(self.verifying) if self.verifying else None
                 iname = (getattr(vc, "uses_interfaces", None) or {}).get(name, name)
-                if iname in INTERFACES:
+                if callable(iname) or iname in INTERFACES:
                     return InterfaceMethod(iname, obj)
             return BuiltinMethod(name, obj)
         if isinstance(obj, BoundMethod):
@@ -1279,8 +1279,9 @@ class Interp:
         if isinstance(f, InterfaceMethod):
             from .contracts import INTERFACES
             from .contract_apply import apply_interface
-            self.contract_calls.add(f"interface:{f.name}")
-            return apply_interface(self, INTERFACES[f.name], f.recv, args, kwargs)
+            name = f.name(args, kwargs) if callable(f.name) else f.name      # the interface may depend on the arguments
+            self.contract_calls.add(f"interface:{name}")
+            return apply_interface(self, INTERFACES[name], f.recv, args, kwargs)
         if isinstance(f, UnknownMethod):
             return self.call_unknown_method(f, args, kwargs)
         if isinstance(f, BuiltinMethod):
